@@ -288,3 +288,16 @@ PLANS["C13"] = idt_plan("idt13", 1000, 200000,
     "set_general_handler!(idt, h, range) with run-time ranges: inclusive (lo, hi) pairs over a 24-value vector lattice (thorough: all 32896 pairs lo <= hi), exclusive and reversed/empty ranges, the full-table and literal-index forms, on fresh and pre-populated tables, raw 4096 bytes before/after; then for every vector of a fully installed table the gate is decoded from raw bytes and entered by simulated delivery (hardware-format frame + error code on the error-code vectors pushed on one of several scratch stacks, varying arithmetic RFLAGS and error-code values 0, 1, all-ones, 0x85, random; jmp to the gate offset) in a forked child; the general handler reports its arguments, the resume point reports rsp/rflags/rip; vectors 8 and 18 (diverging) end in the handler; InterruptStackFrameValue::iretq to a landing pad that reports rsp/rflags; distinct = distinct (operation, arguments)",
     ({"module": "MC_Idt", "cfg": "MC_Idt.cfg", "workers": 8},),
     exhaustive_note="all 256 vectors delivered; thorough: every contiguous (lo,hi) range")
+
+
+def c19_plan(tier, seed):
+    runs = [{"name": "consts%d" % seed, "prof": p, "args": ["consts", "--seed", str(seed)]} for p in ("dev", "rel")]
+    return {"design": [], "runs": runs, "trace_module": "Trace_Consts", "level": "exploration",
+            "rule": "every named flag of every flags type (enumerated at run time from the bitflags name tables, plus aliases and composites), the six descriptor presets, MSR numbers (ECX of the trapped rdmsr of X::MSR), page sizes, enum discriminants, helper constructors, MXCSR reset value are compared by TLC with an independently written table (ArchConsts.tla, generated from tools/gen_arch_table.py, transcribed from the SDM/APM by bit number); codecs enumerated completely: SegmentSelector index/rpl/set_rpl for all 65536 raw values and new(index, rpl) for all 8192 x 4, PrivilegeLevel::from_u16 for all u16, ExceptionVector::try_from / PatMemoryType::from_bits / DebugAddressRegisterNumber / BreakpointSize / BreakpointCondition for all u8, DR7 fields for 4 registers x 4 conditions x 4 sizes x flag subsets with random other-register fields, SelectorErrorCode for all u16 and wide values; distinct = distinct (operation, arguments)",
+            "assumptions": ["ArchConsts.tla is my transcription of the manuals; an error shared by it and the crate would go unnoticed",
+                            "constants the run-time enumeration cannot reach (new associated consts that are not bitflags members) are only checked if the driver names them",
+                            "TLC, CommunityModules and the harness's logging are trusted"],
+            "exhaustive": True, "exhaustive_note": "finite domains (all named constants; all u8/u16 codec inputs) enumerated completely"}
+
+
+PLANS["C19"] = c19_plan
